@@ -88,6 +88,7 @@ structure Task where
   rf : Option Rf := none
   st : Status := .live
   wake : Option (Nat × Bool) := none     -- observation only: outstanding timed wait (absolute wake time, has fds?)
+  prio : Nat := 8                         -- `task.priority` in units of 1/8 (8 = the default priority 1)
   deriving DecidableEq, Repr
 
 structure TimerCfg where
@@ -132,7 +133,8 @@ structure Cfg where
   deriving Repr
 
 inductive Ev
-  | step (t : Nat) (idx : Nat) (time : Nat) (recv : Recv) (wake : Option (Nat × Bool))
+  | step (t : Nat) (idx : Nat) (time : Nat) (recv : Recv) (raw : Val) (wake : Option (Nat × Bool))
+      -- `raw` = `task.rv` as the hub (or a sub-task) left it, before `execute()` / a return function turned it into `recv`
   | fire (t : Nat) (n : Nat) (time : Nat)
   deriving DecidableEq, Repr
 
@@ -150,12 +152,21 @@ structure St where
   sendScript : List (Option Nat) := []      -- results of successive `sock.send` calls (`none` = socket.error); empty = accept all
   recvScript : List (Option Nat) := []      -- results of successive `sock.recv` calls (`none` = raises); empty = 1 byte
   cycles : Nat := 0
+  draws : List Nat := []                    -- successive results of `Scheduler._random()` in units of 1/8; exhausted = 0
   trace : List Ev := []
   deriving Repr
 
 def timeoutVal : Val := .sel [] [] []
 
 def setTask (s : St) (t : Nat) (f : Task → Task) : St := { s with tasks := s.tasks.modify t f }
+
+/-- `t.priority` (a missing task never occurs in the ready deque; it is treated as priority 1 and caught by `cycleExec`) -/
+def prioL (l : List Task) (t : Nat) : Nat :=
+  match l[t]? with
+  | some k => k.prio
+  | none => 8
+
+def prioOf (s : St) (t : Nat) : Nat := prioL s.tasks t
 
 /-- `Scheduler.fast_schedule` :272-279 -/
 def fastSchedule (s : St) (t : Nat) (first : Bool) : St :=
@@ -441,7 +452,7 @@ def doYield (s : St) (t : Nat) : Y → St
     registerSelect (setTask s t (fun k => { k with rf := some (.send fd len 0 to bs) })) t [] [fd] [fd] (to.map (s.now + ·))
   | .exit => { s with hasQuit := true }
   | .again k _ =>
-    fastSchedule { s with tasks := s.tasks ++ [{ kind := .sub k t }] } s.tasks.length true
+    fastSchedule { s with tasks := s.tasks ++ [{ kind := .sub k t, prio := prioOf s t }] } s.tasks.length true   -- subtask.priority = task.priority
   | .cancel j => { cancelTimer s j with ready := s.ready ++ [t] }
   | .raise _ => s
 
@@ -490,9 +501,9 @@ def timerStep (s : St) (t : Nat) (j : Nat) (pc : Nat) : St :=
       else doYield s t (.sleepAbs next)
 
 /-- the generator of task `t` is resumed with `r` -/
-def resumeGen (cfg : Cfg) (s : St) (t : Nat) (tk : Task) (r : Recv) : St :=
+def resumeGen (cfg : Cfg) (s : St) (t : Nat) (tk : Task) (r : Recv) (raw : Val) : St :=
   let s := { setTask s t (fun k => { k with pc := k.pc + 1, wake := none }) with
-             trace := s.trace ++ [.step t tk.pc s.now r tk.wake] }
+             trace := s.trace ++ [.step t tk.pc s.now r raw tk.wake] }
   match tk.kind with
   | .top k =>
     match cfg.progs[k]? with
@@ -508,11 +519,27 @@ def resumeGen (cfg : Cfg) (s : St) (t : Nat) (tk : Task) (r : Recv) : St :=
 
 /-! ### `Scheduler.cycle` and `Scheduler.run` -/
 
-/-- `t = self._ready.popleft()` (an empty deque: `cycle` returns `False`) -/
+/-- the "patented hilarious priority system" of `Scheduler.cycle` :302-311: pop the head; it runs if its priority is >= 1, if
+    it is the only ready task, or if its priority is >= the next draw of `_random()`; otherwise it goes to the back and the next
+    head is tried.  `draws` is the scripted sequence of `_random()` results (exhausted = 0, so the loop ends).
+    Result: (task to run, remaining deque, remaining draws); `none` = the deque was empty (`IndexError`: `cycle` returns False). -/
+def lottery (l : List Task) : List Nat → List Nat → Option (Nat × List Nat × List Nat)
+  | _, [] => none
+  | ds, t :: rest =>
+    if 8 ≤ prioL l t then some (t, rest, ds)
+    else if rest = [] then some (t, [], ds)
+    else match ds with
+      | [] => some (t, rest, [])
+      | d :: ds' => if d ≤ prioL l t then some (t, rest, ds') else lottery l ds' (rest ++ [t])
+
+/-- the selection part of `Scheduler.cycle` -/
 def cyclePop (s : St) : St :=
-  match s.running, s.ready with
-  | none, t :: rest => { s with running := some t, ready := rest }
-  | _, _ => s
+  match s.running with
+  | some _ => s
+  | none =>
+    match lottery s.tasks s.draws s.ready with
+    | none => s
+    | some (t, rest, ds) => { s with running := some t, ready := rest, draws := ds }
 
 /-- `t.execute()` and the interpretation of what it returned -/
 def cycleExec (cfg : Cfg) (s : St) : St :=
@@ -529,7 +556,7 @@ def cycleExec (cfg : Cfg) (s : St) : St :=
       | (.resume r, s1) =>
         match s1.tasks[t]? with
         | none => { s1 with crashed := true }
-        | some tk1 => resumeGen cfg s1 t tk1 r
+        | some tk1 => resumeGen cfg s1 t tk1 r tk.rv
 
 def cycle (cfg : Cfg) (s : St) : St :=
   cycleExec cfg (cyclePop { s with cycles := s.cycles + 1 })
@@ -547,15 +574,22 @@ def run (cfg : Cfg) : Nat → St → St
   | 0, s => s
   | n + 1, s => run cfg n (iter cfg s)
 
-/-- the state after all tasks and timers were created and `start()`ed at time `t0` -/
-def initSt (t0 : Nat) (tasks : List Nat) (timers : List TimerCfg) (sendScript recvScript : List (Option Nat)) : St :=
+/-- `task.start(priority=p)` for the tasks that have an entry in `prios` -/
+def applyPrios : List Task → List Nat → List Task
+  | tk :: r, p :: ps => { tk with prio := p } :: applyPrios r ps
+  | r, _ => r
+
+/-- the state after all tasks and timers were created and `start()`ed at time `t0`; `prios[i]` is the priority of task `i`
+    (in 1/8; a task without an entry has the default priority 1), `draws` the scripted results of `Scheduler._random` -/
+def initSt (t0 : Nat) (tasks : List Nat) (timers : List TimerCfg) (sendScript recvScript : List (Option Nat))
+    (prios draws : List Nat) : St :=
   let n := tasks.length
   let m := timers.length
   { now := t0,
     ready := List.range (n + m),
     pings := n + m,
-    tasks := tasks.map (fun k => { kind := .top k }) ++ (List.range m).map (fun j => { kind := .timer j }),
+    tasks := applyPrios (tasks.map (fun k => { kind := .top k })) prios ++ (List.range m).map (fun j => { kind := .timer j }),
     timers := timers.map (fun c => { cfg := c, next := t0 + c.delay }),
-    sendScript := sendScript, recvScript := recvScript }
+    sendScript := sendScript, recvScript := recvScript, draws := draws }
 
 end Pox.Recoco
